@@ -47,7 +47,7 @@ func adhocExec(p *Program, pkgShort, mode string) (*Exec, *FuncResult) {
 	c := NewCtx()
 	x := &Exec{eng: eng, c: c, mode: mode, pkg: pkg.Types, info: pkg.TypesInfo, key: pkgShort + ".extra",
 		counters: map[string]int{}, boxed: map[types.Object]bool{}, placehold: map[string]Val{}, assumed: map[string]bool{}, abstract: map[string]bool{},
-		loopOrd: map[ast.Stmt]int{}, rangeFacts: map[int]bool{}, callCount: map[string]int{}, specs: map[string]*specInfo{}, globalInit: map[string]bool{}}
+		loopOrd: map[ast.Stmt]int{}, rangeFacts: map[int]bool{}, callCount: map[string]int{}, specs: map[string]*specInfo{}, globalInit: map[string]bool{}, callSeen: map[string]int{}}
 	fr := &FuncResult{Key: x.key, Ctx: c, Exec: x, Contract: &Contract{Key: x.key, Ints: mode, Pkg: pkg}}
 	return x, fr
 }
